@@ -15,7 +15,7 @@ pub struct Board {
     #[allow(dead_code)]
     pub halfmove_clock: u8,
     #[allow(dead_code)]
-    pub fullmove_counter: u8,
+    pub fullmove_counter: u16,
 }
 
 impl Board {
